@@ -137,6 +137,17 @@ def run(ctx):
       if not all(np.all(np.isfinite(np.asarray(x))) for x in jax.tree_util.tree_leaves(out)):
         key = 'drive-all-zero-leaf-NaN' if (name == 'drive' and sname == 'all_zero') else f'agg:{name}:nonfinite:{sname}'
         ctx.violation(key, f'{name} aggregator returns NaN/Inf for a {sname} leaf {arr.tolist()[:4]}...', replay={'aggregator': name, 'input': sname})
+      elif sname == 'size_one' and name in ('rotated_uniform', 'drive'):
+        # a one-element vector is constant: it passes through the rotation-based aggregators unchanged, for every rotation key
+        for kk in range(8):
+          agg_k = mk(jax.random.PRNGKey(900 + kk))
+          st_k = agg_k.init()
+          for rnd in range(2):
+            o_k, st_k = agg_k.apply([(b'a', tree, 2.0), (b'b', tree, 1.0)], st_k)
+            if not all(np.allclose(np.asarray(a), np.asarray(b_), rtol=1e-5, atol=1e-6) for a, b_ in zip(jax.tree_util.tree_leaves(o_k), jax.tree_util.tree_leaves(tree))):
+              ctx.violation(f'agg:{name}:identity:size_one', f'{name} aggregator (key {900 + kk}, round {rnd + 1}) turns the one-element leaf {arr.tolist()} into '
+                            f'{[np.asarray(a).tolist() for a in jax.tree_util.tree_leaves(o_k)]}', replay={'aggregator': name, 'key': 900 + kk})
+              break
       elif sname in ('constant', 'all_zero') and name in ('uniform', 'uniform_arithmetic'):
         if not all(np.array_equal(np.asarray(a), np.asarray(b_)) for a, b_ in zip(jax.tree_util.tree_leaves(out), jax.tree_util.tree_leaves(tree))):
           ctx.violation(f'agg:{name}:identity:{sname}', f'{name} aggregator changes a {sname} vector', replay={'aggregator': name, 'input': sname})
